@@ -41,6 +41,13 @@ var c13Items = []c13Item{
 	{"comment", []c13Tag{tg("comment"), tg("endcomment")}, 1, []bool{false}, func(in []string) string { return "" }, true},
 	{"raw", []c13Tag{tg("raw"), tg("endraw")}, 1, []bool{false}, func(in []string) string { return in[0] }, true},
 	{"capture", []c13Tag{tg("capture c"), tg("endcapture"), obj("c")}, 2, []bool{true, true}, nil, false},
+	// tight spellings: nothing between the marker and the content of the tag ({{-1-}}, {{-'s'-}}, {%-if true-%}); a
+	// negative literal after a marker and a blank ({{- -1 -}})
+	{"object-tight-digit", []c13Tag{{"{{", "1", "}}"}}, 0, nil, func([]string) string { return "1" }, true},
+	{"object-tight-string", []c13Tag{{"{{", "'s'", "}}"}}, 0, nil, func([]string) string { return "s" }, true},
+	{"object-negative", []c13Tag{{"{{", " -1 ", "}}"}}, 0, nil, func([]string) string { return "-1" }, true},
+	{"if-tight", []c13Tag{{"{%", "if true", "%}"}, {"{%", "endif", "%}"}}, 1, []bool{true}, func(in []string) string { return in[0] }, true},
+	{"object-tight-filter", []c13Tag{{"{{", "2|minus:1", "}}"}}, 0, nil, func([]string) string { return "1" }, true},
 }
 
 func init() {
@@ -282,6 +289,10 @@ func c13Families(tier string) []explore.Family {
 		for _, it := range []int{0, 2, 4, 7} {
 			shapes = append(shapes, c13Shape{[]int{it}, []string{long, "a" + long, long + "a"}, []string{long}})
 		}
+	}
+	for it := 8; it <= 12; it++ {
+		shapes = append(shapes, c13Shape{[]int{it}, c13W4, c13W2[:1]})
+		shapes = append(shapes, c13Shape{[]int{it, 0}, c13W3, c13W2[:1]}, c13Shape{[]int{2, it}, c13W3, c13W2[:1]})
 	}
 	// letters whose UTF-8 encoding ends in a byte that IS whitespace when read as Latin-1 (0x85 NEL, 0xA0 NBSP): à Å ą Š;
 	// and other multi-byte neighbours: trimming works on characters, never on bytes
